@@ -36,6 +36,12 @@ func exhaustiveSubsets(c extraCfg) (evals int, fails []corr.Fail, note string) {
 	run := func(op string) string {
 		out, f := p.s.exec(op, -1)
 		fails = append(fails, f...)
+		// sync rule of the line protocol: after a chain change the certificate ops answer `unsynced` until the
+		// parameter / state lines were emitted (planner.sync does that for the model-compared cases)
+		switch strings.Fields(op)[0] {
+		case "extend", "change", "reorg", "block":
+			p.sync()
+		}
 		return out
 	}
 	if c.chain > 0 {
